@@ -412,3 +412,40 @@ SPECS["C17"] = CheckSpec(
               "the ESTABLISHED polling loop (ENVX-b)",
     design_ref="DESIGN.md §3 C17", engine="ENVX",
 )
+
+
+# --------------------------------------------------------------------------- C10
+C10_BUILD = dict(flavour="asan", name="spki_seqx", harness_srcs=["spki_seqx.c"],
+                 exclude_lib=["rtrlib/pfx/trie/trie-pfx.c", "rtrlib/spki/hashtable/ht-spkitable.c"])
+
+
+def c10_jobs(tier, repo):
+    q = tier == "quick"
+    cfgs = [([], "near-twin alphabet, fixed point"),
+            (["--fill=31,33,70", "--max-depth=%d" % (5 if q else 7)], "with filler levels 31/33/70"),
+            (["--small", "--fill=33,70", "--max-depth=%d" % (6 if q else 8)], "5 keys, filler levels 33/70"),
+            (["--small", "--no-reload", "--fill=33", "--max-depth=%d" % (7 if q else 9)], "5 keys, no reload, filler 33"),
+            (["--small", "--fill=130", "--max-depth=%d" % (5 if q else 7)], "5 keys, filler level 130 (two splits)")]
+    return [Job("spki_seqx", C10_BUILD, a, l) for a, l in cfgs]
+
+
+SPECS["C10"] = CheckSpec(
+    "C10", c10_jobs,
+    rule="explicit-state BFS over histories of add / remove (6 near-twin keys: two keys under one (AS,SKI), same key "
+         "under two sources, two AS numbers brute-forced to share a bucket of the 64-bucket table and to part after "
+         "the first split, a third AS, a second SKI), remove-by-source (3 sources), reload (copy-except-source into a "
+         "fresh table + swap + notify-diff, the sequence rtr_sync performs), bulk fill to 31/33/70/130 filler keys and "
+         "unfill (grow, shrink and mid-split states of the linear hash); in every distinct state spki_table_get_all for "
+         "every (AS,SKI) and spki_table_search_by_ski for every SKI are compared with the model as multisets, return "
+         "codes with set semantics, and a mirror set driven only by the update callbacks with the contents; state key = "
+         "stored list order + hash geometry + model + mirror",
+    assumptions=["alphabet of 6 keys + filler block; the fixed point is reached without fillers, filler jobs are depth-bounded"],
+    counters_map={"executions": ["transitions"], "distinct": ["states"]},
+    level_text="Explicit-state model checking of the real hash table + list against a set model and a callback mirror: "
+               "fixed point over the near-twin alphabet (1957 ordered states), bounded depth with resize-crossing bulk "
+               "operations.",
+    level_note="Harness includes ht-spkitable.c to read the private list / hash geometry for the state key; lookups go "
+               "through the public functions only. tommyds is exercised as part of the real table.",
+    technique="explicit-state BFS over operation histories on the real object against a set model and callback mirror (SEQX)",
+    design_ref="DESIGN.md §3 C10", engine="SEQX",
+)
